@@ -26,6 +26,8 @@ var c12Queries = []string{
 	"SELECT a, (SELECT ASYNC.vid(p) AS w FROM items) AS s FROM t WHERE a > ?",
 	"WITH c AS (SELECT a, ASYNC.vid(a) AS v FROM t), d AS (SELECT * FROM c WHERE a > ?) SELECT * FROM d",
 	"SELECT a, AWAIT(ASYNC.vid(a + 1)) AS v, AWAIT(a) AS w FROM t WHERE a > ?",
+	// `::` selectors next to the plain selectors their stages spell
+	"SELECT q AS w, p AS u, a, `items::[0]::q` AS v, `items[0]::p` AS z FROM t WHERE a > ?",
 	// chains of asynchronous slots, with a NULL at the end
 	"SELECT a, ASYNC.vid(ASYNC.vnul(a)) AS v FROM t WHERE a > ?",
 	"SELECT a, ASYNC.vid(ASYNC.vid(a)) AS w FROM t WHERE a > ?",
